@@ -142,6 +142,86 @@ func rxStream(k *toks, o *out) {
 	o.bool(rxBalloon(&m0, &m1, total))
 }
 
+// rxtcpwire: size(=4096) nchunks chunk..  -> nmsgs {msg}.. fin balloon
+//   the REAL TCPServerTransport.receiveMessage goroutine reading a scripted connection (one Read = at most the
+//   rest of the current segment), handing its messages to a handler that only QUEUES the envelopes, as
+//   Proxy.HandleRawMessage does; the queue is read after the connection has ended (a consumer that lags behind
+//   the reader), so what is compared is the set and order of messages the receive loop delivered
+type scriptedConn struct {
+	chunkReader
+	closed int
+}
+
+type scriptedAddr string
+
+func (a scriptedAddr) Network() string { return "tcp" }
+func (a scriptedAddr) String() string  { return string(a) }
+
+func (c *scriptedConn) Write(b []byte) (int, error)        { return len(b), nil }
+func (c *scriptedConn) Close() error                       { c.closed++; return nil }
+func (c *scriptedConn) LocalAddr() net.Addr                { return scriptedAddr("127.0.0.1:5061") }
+func (c *scriptedConn) RemoteAddr() net.Addr               { return scriptedAddr("127.0.0.9:40000") }
+func (c *scriptedConn) SetDeadline(t time.Time) error      { return nil }
+func (c *scriptedConn) SetReadDeadline(t time.Time) error  { return nil }
+func (c *scriptedConn) SetWriteDeadline(t time.Time) error { return nil }
+
+type rxQueueHandler struct{ q []*RawMessage }
+
+func (h *rxQueueHandler) HandleRawMessage(m *RawMessage) { h.q = append(h.q, m) }
+func (h *rxQueueHandler) HandleMessage(m *Message)       {}
+
+func rxTCPWire(k *toks, o *out) {
+	size := k.int()
+	n := k.int()
+	if k.bad || size != 4096 || n < 0 || n > k.rest() {
+		k.bad = true
+		return
+	}
+	conn := &scriptedConn{}
+	total := 0
+	for i := 0; i < n; i++ {
+		c := append([]byte(nil), k.bytes()...)
+		total += len(c)
+		conn.chunks = append(conn.chunks, c)
+	}
+	if k.bad {
+		return
+	}
+	h := &rxQueueHandler{}
+	t := NewTCPServerTransportWithConn(conn, false, nil)
+	t.msgHandler = h
+	done := make(chan string, 1)
+	var m0, m1 runtime.MemStats
+	runtime.ReadMemStats(&m0)
+	go func() {
+		fin := "err" // the loop ends when ParseMessage fails (here: at the end of the script)
+		defer func() {
+			if r := recover(); r != nil {
+				fin = "panic"
+			}
+			done <- fin
+		}()
+		t.receiveMessage(conn)
+	}()
+	fin := ""
+	select {
+	case fin = <-done:
+	case <-time.After(rxWatchdog):
+		fin = "hang"
+	}
+	runtime.ReadMemStats(&m1)
+	if fin == "hang" {
+		o.i(0)
+	} else {
+		o.i(len(h.q))
+		for _, rm := range h.q {
+			rxPutMsg(o, rm.Message)
+		}
+	}
+	o.s(fin)
+	o.bool(rxBalloon(&m0, &m1, total))
+}
+
 var rxSentinel = []byte("OPTIONS sip:barrier@verif SIP/2.0\r\nContent-Length: 0\r\n\r\n")
 
 func rxUDP(k *toks, o *out) {
@@ -428,4 +508,5 @@ func init() {
 	components["rxudp-c08"] = rxUDP
 	components["rxpool"] = rxPool
 	components["rxwire"] = rxWire
+	components["rxtcpwire"] = rxTCPWire
 }
